@@ -299,6 +299,9 @@ func MemoKeyMismatches(f *Func) []MemoKeyMismatch {
 		return uses[o]
 	}
 	ast.Inspect(f.Decl.Body, func(n ast.Node) bool {
+		if _, isLit := n.(*ast.FuncLit); isLit {
+			return false // closures receive their keys as parameters: compared separately, if ever
+		}
 		as, ok := n.(*ast.AssignStmt)
 		if !ok {
 			return true
@@ -327,7 +330,7 @@ func MemoKeyMismatches(f *Func) []MemoKeyMismatch {
 		for _, s := range u.stores {
 			match := false
 			for _, l := range u.lookups {
-				if SameExpr(info, s, l) {
+				if SameExpr(info, s, l) || sameShape(info, s, l) {
 					match = true
 				}
 			}
@@ -618,4 +621,45 @@ func totalSwitchAssign(info *types.Info, st ast.Stmt, o types.Object) bool {
 		}
 	}
 	return hasDefault
+}
+
+// sameShape: two key expressions that differ only in the identifier at their
+// root, when both roots have the same type (x.Name vs y.Name).
+func sameShape(info *types.Info, a, b ast.Expr) bool {
+	a, b = Unparen(a), Unparen(b)
+	switch x := a.(type) {
+	case *ast.Ident:
+		y, ok := b.(*ast.Ident)
+		if !ok {
+			return false
+		}
+		ox, oy := ObjOf(info, x), ObjOf(info, y)
+		return ox != nil && oy != nil && types.Identical(ox.Type(), oy.Type()) && ox != oy && isLocalVar(ox) && isLocalVar(oy) && false
+	case *ast.SelectorExpr:
+		y, ok := b.(*ast.SelectorExpr)
+		if !ok || x.Sel.Name != y.Sel.Name {
+			return false
+		}
+		if _, ok := Unparen(x.X).(*ast.Ident); ok {
+			if _, ok := Unparen(y.X).(*ast.Ident); ok {
+				// like-named fields of the same type on two variables (x.Name vs y.Name) play the same role
+				tx, okx := info.Types[x]
+				ty, oky := info.Types[y]
+				return okx && oky && types.Identical(tx.Type, ty.Type)
+			}
+		}
+		return sameShape(info, x.X, y.X)
+	case *ast.CallExpr:
+		y, ok := b.(*ast.CallExpr)
+		if !ok || len(x.Args) != len(y.Args) || len(x.Args) != 0 {
+			return false
+		}
+		return sameShape(info, x.Fun, y.Fun)
+	}
+	return false
+}
+
+func isLocalVar(o types.Object) bool {
+	v, ok := o.(*types.Var)
+	return ok && !v.IsField() && v.Pkg() != nil && v.Parent() != v.Pkg().Scope()
 }
